@@ -96,6 +96,9 @@ func (tt *TermTable) UF(name string, resw int, args ...*Term) *Term {
 }
 
 func sext(v uint64, w int) int64 {
+	if w == 0 {
+		return int64(v)
+	}
 	if w >= 64 {
 		return int64(v)
 	}
